@@ -1,5 +1,5 @@
 #!/bin/bash
-# usage: build.sh <harness-name> <variant P|T>   -> bin/<harness>.<variant>
+# usage: build.sh <harness-name> <variant P|T|N>   -> bin/<harness>.<variant>
 # Rebuilds from /repo's working tree; objects are cached by a hash of all inputs.
 set -e
 H=$1; V=${2:-P}
@@ -11,6 +11,9 @@ CXX=g++
 RTFLAGS="-std=c++17 -O2 -g -fno-omit-frame-pointer -fno-exceptions -ftls-model=initial-exec -fno-pie"
 HFLAGS="-std=c++17 -O1 -fno-inline -fno-omit-frame-pointer -g -fsanitize=thread --param tsan-instrument-func-entry-exit=0 -DXENIUM_VERIF -fno-pie -Wno-tsan -Wno-cpp -I$REPO -I$ROOT/xsim -I$ROOT/harness"
 [ "$V" = "P" ] && HFLAGS="$HFLAGS -U__SANITIZE_THREAD__ -DXSIM_VARIANT_P"
+# variant N: production memory orders and NDEBUG - what users ship; the library's own assertions are compiled out, so
+# every verdict comes from the oracles of the harness and the monitors of the runtime
+[ "$V" = "N" ] && HFLAGS="$HFLAGS -U__SANITIZE_THREAD__ -DXSIM_VARIANT_P -DNDEBUG"
 WRAP="-Wl,--wrap=pthread_mutex_lock,--wrap=pthread_mutex_unlock,--wrap=pthread_mutex_trylock,--wrap=sched_yield,--wrap=__assert_fail"
 rt_hash=$(cat $ROOT/xsim/*.cpp $ROOT/xsim/*.inc $ROOT/xsim/*.hpp | sha256sum | cut -c1-24)
 RT=$ROOT/build/cache/rt-$rt_hash.o
